@@ -600,6 +600,12 @@ func (c *Fn) ltEnd(i ssa.Value, L string, strict bool, b *ssa.BasicBlock, d int)
 	return c.lt(i, L, strict, b, d)
 }
 
+// LT proves i < expr (strict) or i <= expr at block at, for a canonical
+// rendering expr of an integer value (symx.Fn.E).
+func (c *Fn) LT(i ssa.Value, expr string, strict bool, at *ssa.BasicBlock) bool {
+	return c.lt(i, expr, strict, at, 0)
+}
+
 // Below proves i < len(x) (strict) or i <= len(x) at block at.
 func (c *Fn) Below(i, x ssa.Value, strict bool, at *ssa.BasicBlock) bool {
 	for _, L := range c.LenExprs(x, 0) {
